@@ -30,6 +30,8 @@ def run(c, p):
     if ix == "array":
         return decode(rla[arr(c["idx"], "int64")])
     if ix == "mask":
+        if p.get("aslist"):
+            return decode(rla[[common.pyval(m) for m in c["mask"]]])          # a plain Python list of bools is a mask too
         return decode(rla[arr(c["mask"], "bool")])
     if ix == "rlmask":
         return decode(rla[RunLengthArray.from_array(arr(c["mask"], "bool"))])
@@ -214,7 +216,7 @@ def conc(case):
 def jobs(tier, seed):
     q = tier == "quick"
     n = 4 if q else 5
-    out = [dict(ix="int", n=n), dict(ix="list", n=n, m=2 if q else 3), dict(ix="array", n=n, m=2), dict(ix="mask", n=n), dict(ix="rlmask", n=n), dict(ix="rlmask_ufunc", n=3 if q else 4),
+    out = [dict(ix="int", n=n), dict(ix="list", n=n, m=2 if q else 3), dict(ix="array", n=n, m=2), dict(ix="mask", n=n), dict(ix="mask", n=n, aslist=True), dict(ix="rlmask", n=n), dict(ix="rlmask_ufunc", n=3 if q else 4),
            dict(ix="windows", n=3 if q else 4, k=2), dict(ix="ellipsis", n=n)]
     for s in (1, 2, 3, -1, -2, -3) if not q else (1, 2, -1, -2, 3):
         out.append(dict(ix="slice", n=n, s=s))
